@@ -156,6 +156,24 @@ theorem setattrs_keeps_missing (evs : List (Attr × Option V)) (m m' : Mod V B) 
       exact ih m1 h1 (fun e he => hno e (List.mem_cons_of_mem _ he)) hs
 
 
+theorem construct_keeps_missing (args : List (Attr × Option V)) (m : Mod V B) (k : Attr) (hk : k ∈ lazyAttrs)
+    (hno : ∀ e ∈ args, e.1 = k → e.2 = none) (h : construct init args = some m) : k ∈ m.missing := by
+  unfold construct at h
+  cases hs : setattrs init (fresh : Mod V B) args with
+  | none => simp [hs, bind, Option.bind] at h
+  | some m1 =>
+    have h1 : k ∈ m1.missing := setattrs_keeps_missing init args fresh m1 k hk hno hs
+    simp only [hs, bind, Option.bind] at h
+    split at h
+    · rename_i he
+      simp only at he
+      have : m1.missing = [] := List.isEmpty_iff.mp he
+      rw [this] at h1
+      cases h1
+    · injection h with h
+      subst h
+      exact h1
+
 /-! ## lazy = eager, by enumeration of the 8 constructor subsets x 6 assignment orders -/
 
 /-- constructor arguments in signature order; lazy attribute `k` is supplied iff `given k` -/
